@@ -39,7 +39,7 @@ theorem gateDefects_exec {g : GateTerm P} {bits : List Nat} (h : ∀ d ∈ gateD
   unfold gateDefects at h
   refine ⟨?_, ?_, ?_⟩
   · apply Classical.byContradiction; intro hg
-    have := h .unsupportedGate (by simp [hg])
+    have := h .badComposite (by simp [hg])
     simp [Defect.exec] at this
   · apply Classical.byContradiction; intro hg
     have := h .arity (by simp [hg])
